@@ -94,7 +94,7 @@ def classify(ctx, tie, mm):
         elif fin and len(y) == len(x0):
             if any(not (-1.0 <= v <= 1.0) for v in y):
                 why = 'output sample outside [-1, 1]'
-            elif any((a > 2 ** -20 and b < 0) or (a < -2 ** -20 and b > 0) for a, b in zip(x0, y)):
+            elif any((a > 0 and b < 0) or (a < 0 and b > 0) for a, b in zip(x0, y)):
                 why = 'a sample changed sign'
             elif all(abs(v) <= 1.0 for v in x0) and all(m == 0 for m in mem0) and (toks[6] != it[1] or any(m != 0 for m in mem1)):
                 why = 'a signal already inside [-1, 1] with cleared memory must be left bit-for-bit untouched'
@@ -112,9 +112,28 @@ def search(ctx):
     env.update(ENV)
     cmds = [('search', [h, 'search', str(ctx.seed), str(n)]),
             ('gainsearch', [h, 'gainsearch', str(ctx.seed), str(ns), str(CALIB['gain_factor_rel_tol'])])]
+    wit, cases, stats, samples = [], 0, {}, []
+    # ---- corpus of minimised past failures first (they must pass now): the soft-clip calls that exposed the
+    # start-of-frame ramp sign flip, and mode-switching streams that exposed the gain applied twice
+    cpath = os.path.join(common.VERIF, 'corpus', 'C19', 'softclip_lines.txt')
+    clines = [l for l in open(cpath).read().split('\n') if l.startswith('softclip clip ')] if os.path.exists(cpath) else []
+    if clines:
+        rc, out = common.sh([h, 'stdin'], input='\n'.join(clines) + '\n', env=ENV)
+        preds = [l[2:] for l in out.split('\n') if l.startswith('P ')]
+        for l, pr in zip(clines, preds):
+            cases += 1
+            if not pr.startswith('kind=0'):
+                parts = pr.split(' ', 1)[1].split(' | ') if ' ' in pr else [pr, '']
+                wit.append({'suite': 'softclip-corpus', 'input': l, 'expected': parts[0], 'observed': parts[-1],
+                            'why': 'a minimised past failure of the soft clipper fails again (bounded / sign kept / pass-through)'})
+        if rc != 0 or len(preds) != len(clines):
+            wit.append({'suite': 'softclip-corpus', 'input': 'c19_softclip stdin < corpus/C19/softclip_lines.txt',
+                        'expected': '%d calls evaluated' % len(clines), 'observed': 'exit %s, %d evaluated: %s' % (rc, len(preds), out[-300:]),
+                        'why': 'the corpus run trapped or did not complete'})
+        stats['corpus.softclip_calls'] = len(preds)
+    cmds.insert(0, ('gaincorpus', [h, 'gaincorpus', str(CALIB['gain_factor_rel_tol'])]))
     procs = [(name, cmd, subprocess.Popen(cmd, stdout=subprocess.PIPE, stderr=subprocess.STDOUT, text=True, env=env))
              for name, cmd in cmds]
-    wit, cases, stats, samples = [], 0, {}, []
     for name, cmd, p in procs:
         try:
             out, _ = p.communicate(timeout=3000)
@@ -148,12 +167,11 @@ def search(ctx):
                         'expected': 'the search runs to completion without sanitizer report / abort',
                         'observed': '; '.join(tail[:4]) or ('exit code %s: %s' % (p.returncode, out[-400:])),
                         'why': 'the implementation trapped (out-of-bounds access, undefined behaviour or assertion)'})
-    # genuine sign flips first, the rounding-residue class last
-    wit.sort(key=lambda w: w['suite'].endswith('sign-residue'))
-    return {'cases': cases, 'distinct': 7,
-            'oracle': 'on the real library (ASan+UBSan build), zero-initialised memory carried over consecutive frames: every '
-                      'output sample in [-1, 1]; no sample changes sign (flips with |in|,|out| < 2^-20 are reported as the '
-                      'separate class sign-residue); all-in-range input with cleared memory is returned bit for bit with '
+    return {'cases': cases, 'distinct': 8,
+            'oracle': 'first the corpus of minimised past failures (corpus/C19: the soft-clip calls of the former ramp sign '
+                      'flip incl. 600-sample ramps; 12 mode-switching streams alternating SILK-only / CELT-only packets on every '
+                      'frame with fixed gains — the former double-gain defect), then on the real library (ASan+UBSan build), zero-initialised memory carried over consecutive frames: every '
+                      'output sample in [-1, 1]; no sample changes sign, however small (strict); all-in-range input with cleared memory is returned bit for bit with '
                       'memory 0; the C-channel call equals C single-channel calls (samples and memory, bit for bit); degenerate '
                       'arguments touch nothing. Gain: factor vs 10^(g/5120) for all 65536 gains within the calibrated '
                       'tolerance; twin decoders with gain g / 0 on the same packets (incl. lost frames, FEC, and every third '
